@@ -281,7 +281,17 @@ func (p *vC08Peer) SendMessage(sync bool, msgs ...lnwire.Message) error {
 			}
 		}
 	}
-	return p.Peer.SendMessage(sync, out...)
+	err := p.Peer.SendMessage(sync, out...)
+	if p.bob {
+		// stop point "the message has left": e.g. right after the
+		// revoke_and_ack, before the commit_sig that is owed in return
+		for _, m := range msgs {
+			if kind, _, _, _, _ := p.v.rec.classify(m); kind == "rev" || kind == "sig" {
+				p.v.sp(p.ch, "sent_"+kind)
+			}
+		}
+	}
+	return err
 }
 
 // ---- HtlcNotifier at Bob ------------------------------------------------------
